@@ -2905,6 +2905,8 @@ func extractConditionValues(in []any) (c Condition, ok bool) {
 		c = Cond(word, op, in[3])
 	}
 
+	ok = c.IsInit()
+
 	return
 }
 
@@ -2938,7 +2940,10 @@ func marshalDefault(in []any) (x Stack, c Condition, err error) {
 		// the Operator and the last is the
 		// expression (value).  Convert this
 		// to a proper instance of Condition.
-		c, _ = extractConditionValues(in)
+		var cok bool
+		if c, cok = extractConditionValues(in); !cok {
+			err = errorf("Malformed condition; want label, keyword, operator and expression")
+		}
 		return
 	case `LIST`, `AND`, `OR`, `NOT`, `BASIC`:
 		x = stackByWord(lab).Push(in[1:]...)
